@@ -7,20 +7,24 @@ LEAN_MODULES = ["MesaModel.Props.C02"]
 THEOREMS = ["Mesa.Agents." + t for t in (
     "C02_registry_exact_all_histories", "C02_by_type_exact_all_histories", "C02_creation_order_unless_reordered",
     "C02_unique_ids_all_histories", "C02_ids_never_change", "C02_remove_atomic_and_idempotent",
-    "C02_other_models_untouched", "C02_create_agents_splits_arguments", "C02_sets_nodup_all_histories")]
+    "C02_other_models_untouched", "C02_create_agents_splits_arguments", "C02_sets_nodup_all_histories",
+    "C02_other_models_untouched_all_histories", "C02_direct_register_and_deregister",
+    "C02_removed_stays_removed_everywhere")]
 COUNTS = {"quick": 1000, "thorough": 150000}
 TRUSTED = [
     "CPython dict / WeakKeyDictionary keep insertion order; deleting a key keeps the order of the others (the model uses lists)",
     "CPython refcounting: an agent dies exactly when its model deregisters it and the program holds no reference",
     "itertools.count(1) per model instance (Agent._ids) yields 1,2,3,…",
-    "agent callbacks are scripts (remove self / remove other / create / drop reference); arbitrary Python side effects are not modelled",
+    "agent callbacks are scripts (remove self / remove other / create / drop reference / edit a program-made set / raise); arbitrary Python side effects are not modelled",
 ]
 ASSUMPTIONS = ["the program changes model.agents only by in-place shuffle/sort (the property's 'explicitly reordered in place'); "
                "select(inplace=True)/add/discard on the registry's own sets are outside the quantifier"]
 RULE = ("random histories over 1-3 coexisting models and a 4-class hierarchy (T0<-T1<-T3, T2): constructor and create_agents "
         "(n=0..4; one or two arguments, positional or keyword, each a single object or a list / tuple / ndarray of length n or of another "
-        "length), the rejected assignment model.agents = [...], remove (also twice, also of held agents), remove_all_agents, in-place "
-        "shuffle/sort of model.agents and by-type sets, activations whose callbacks remove and create agents in any model; "
+        "length), the rejected assignment model.agents = [...], remove (also twice, also of held agents), remove_all_agents, "
+        "model.register_agent / model.deregister_agent called directly (also twice, also on removed-but-held agents), in-place "
+        "shuffle/sort of model.agents and by-type sets, activations whose callbacks remove and create agents in any model, edit program-made "
+        "sets and raise (an activation left by an exception keeps the registry exact); "
         "full registry dump after every op; non-trivial = at least one removal and two creations took effect; distinct = "
         "distinct op-line sequences (sha1)")
 
